@@ -767,7 +767,14 @@ fn main() {
         .reduce(Tally::default, Tally::add);
 
     // ---- level 1: x op y over the main kinds.
-    let l1_args: &[&'static str] = &ARGS;
+    let l1_args: &[&'static str] = if thorough {
+        &ARGS
+    } else {
+        &[
+            "a", "a/b", ".", "..", "../b", "B", "b/", "A/b", "*", "a/*", "**/b", "*/b", "a/**", "[ab]", "../*",
+            "/ws/a",
+        ]
+    };
     let l1_kinds: &[&'static str] = if thorough { &ALL_KINDS } else { &MAIN_KINDS };
     let mut l1_atoms: Vec<Ast> = atoms(l1_kinds, l1_args).into_iter().map(Ast::Atom).collect();
     l1_atoms.push(Ast::All);
@@ -809,7 +816,7 @@ fn main() {
             &["", "file", "glob", "glob-i", "root"]
         };
     let l2_args: &[&'static str] =
-        if thorough { &["a", "a/b", "..", "*", "**/b", "a/*", "B"] } else { &["a", "..", "*/b", "B"] };
+        if thorough { &["a", "a/b", "..", "*", "**/b", "a/*", "B"] } else { &["a", "..", "*/b"] };
     let mut l2_atoms: Vec<Ast> = atoms(l2_kinds, l2_args).into_iter().map(Ast::Atom).collect();
     l2_atoms.push(Ast::All);
     if thorough {
@@ -875,7 +882,7 @@ fn main() {
     let n_atoms3 = l3_atoms.len();
     let mut l3_jobs: Vec<(usize, Vec<usize>)> = vec![];
     for c in 0..CWDS.len() {
-        for n in [4usize, 5] {
+        for n in 4..=ctx.pick(4usize, 5usize) {
             vcommon::enumerate::odometer(&vec![n_atoms3; n], |idx| {
                 l3_jobs.push((c, idx.to_vec()));
                 true
@@ -930,7 +937,7 @@ fn main() {
              for op in & ~ | over {n_atoms1} atoms ({} kind spellings x {} arguments + all() + none()); one in eight also \
              without whitespace and fully parenthesised. Level 2: ~~x, ~(x op y), ~x op y, x op ~y, (x op1 y) op2 z and \
              z op2 (x op1 y) printed with minimal parentheses over {n_atoms2} atoms. Level 3: every union x1 | .. | xn, \
-             n = 4, 5, over {n_atoms3} atoms of different pattern types. Every (cwd, string, entry point) \
+             n = 4 (thorough: and 5), over {n_atoms3} atoms of different pattern types. Every (cwd, string, entry point) \
              is generated once. Each expression is evaluated on {} paths. Non-trivial = accepted expressions whose \
              selected set is neither empty nor the whole universe",
             ARGS.len(),
